@@ -202,6 +202,39 @@ def wf_equal(k: int, w: int, ext: int = 0) -> type:
     ])
 
 
+def wf_pool_wait(k: int, w: int) -> type:
+    """a pool step (num_workers=w < k events) whose LAST input suspends in wait_for_event while siblings are still in
+    flight: slots are freed and re-used out of start order, and the wait result must go to the invocation that waits"""
+    async def start(self, ctx, ev, inv):  # noqa: ANN001
+        for i in range(k):
+            ctx.send_event(Work(uid=i))
+        return None
+
+    async def work(self, ctx, ev, inv):  # noqa: ANN001
+        if ev.uid == k - 1:
+            r = await ctx.wait_for_event(Resp, timeout=None, waiter_id="wp")
+            await gate(f"work{ev.uid}:after-wait")
+            return Done(uid=100 + r.uid)
+        await gate(f"work{ev.uid}")
+        return Done(uid=ev.uid)
+
+    async def fin(self, ctx, ev, inv):  # noqa: ANN001
+        r = ctx.collect_events(ev, [Done] * k)
+        if r is None:
+            return None
+        return StopEvent(result=sorted(e.uid for e in r))
+
+    return make_workflow("PoolWait", [
+        make_step("start", [StartEvent], [Work, None], start),
+        make_step("work", [Work], [Done], work, num_workers=w),
+        make_step("fin", [Done], [StopEvent, None], fin, num_workers=1),
+    ])
+
+
+def pool_wait_scripts(state: dict[str, Any]) -> list[list[Action]]:
+    return [[Action("ext Resp9 broadcast", lambda: state["hd"].ctx.send_event(Resp(uid=9)))]]
+
+
 def equal_ext_scripts(n: int) -> Any:
     def mk(state: dict[str, Any]) -> list[list[Action]]:
         return [[Action(f"ext Work0 (equal) #{i}", lambda: state["hd"].ctx.send_event(Work(uid=0)))] for i in range(n)]
@@ -260,6 +293,10 @@ def specs(tier: str) -> list[Spec]:
         Spec("equal_events(k=4,w=2)", {}, lambda: wf_equal(4, 2), max_dev=(3 if q else None), tags=("equal",)),
         Spec("equal_events_ext(k=2,w=1,ext=2)", {}, lambda: wf_equal(2, 1, 2), scripts=equal_ext_scripts(2),
              max_dev=(3 if q else None), tags=("equal",)),
+        Spec("pool_wait(k=3,w=2)", {"waiter_steps": ["work"], "send_when_waiting": True}, lambda: wf_pool_wait(3, 2),
+             max_dev=(4 if q else None), tags=("waiter", "pool")),
+        Spec("pool_wait(k=4,w=3)", {"waiter_steps": ["work"], "send_when_waiting": True}, lambda: wf_pool_wait(4, 3),
+             max_dev=(3 if q else 5), tags=("waiter", "pool")),
     ]
     return sp
 
@@ -271,8 +308,14 @@ def _prep(h: Any) -> None:
 def _oracle() -> Oracle:
     def on_q(h: Any) -> None:
         if not hasattr(h, "c02_waiter_steps"):
-            h.c02_waiter_steps = {"sw"}
+            h.c02_waiter_steps = set(h.spec.params.get("waiter_steps", ["sw"]))
             h.c02_wait_types = {Resp}
+        if h.spec.params.get("send_when_waiting") and not getattr(h, "c02_resp_script", False) and h.runners:
+            # the client answers once the run waits (an answer sent before the waiter exists is dropped by design)
+            if any(ws.collected_waiters for ws in h.runners[-1].state.workers.values()):
+                h.c02_resp_script = True
+                for sc in pool_wait_scripts(h.state):
+                    h.state["e"].add_script(sc)
 
     return Oracle(on_quiescent=on_q, on_tick=on_tick, final=final)
 
@@ -281,7 +324,8 @@ ORACLE = _oracle()
 
 RULE = ("multi-accept workflow graphs (overlapping exact types, a subclass event, targeted and broadcast "
         "ctx.send_event, returned events, external broadcast/targeted sends, a waiting step that also accepts the "
-        "awaited type, field-for-field equal events queued behind a saturated step) x all schedules within the stated deviation bound; per processed add-event tick the runner "
+        "awaited type, field-for-field equal events queued behind a saturated step, a pool step one of whose inputs suspends in "
+        "wait_for_event while its siblings free and re-use worker slots out of start order) x all schedules within the stated deviation bound; per processed add-event tick the runner "
         "state delta is compared with a dict router, and body entries / UnhandledEvent reports are counted at the "
         "end (runs end only after a fan-in of every delivery); non-trivial = at least one schedule deviation")
 
